@@ -1218,6 +1218,9 @@ class PathResult:
         self.ndec = ndec
 
 
+_GAP_COUNT = {}         # per worker process: unencodable paths met so far, by case
+
+
 def explore(fn, shard=None, max_paths=None, deadline=None, on_path=None,
             timeout_ms=60000, smt_dump=None, root=None, donate=None, before_path=None):
     """Exhaustively explore harness ``fn`` below the decision prefix ``root``.
@@ -1235,6 +1238,7 @@ def explore(fn, shard=None, max_paths=None, deadline=None, on_path=None,
     stack = [list(root or [])]
     status = "exhausted"
     gaps, gap_witnesses = [], []
+    gkey = getattr(getattr(fn, "__self__", None), "name", None) or getattr(fn, "__name__", "?")
     try:
         while stack:
             if max_paths is not None and ctx.paths >= max_paths:
@@ -1265,7 +1269,10 @@ def explore(fn, shard=None, max_paths=None, deadline=None, on_path=None,
                 except PathEnd:
                     skip = True
                 except EngineUnsupported:
-                    if ctx.aborted not in ("shard", "infeasible"):
+                    shared_prefix = ctx.shard is not None and ctx.shard[0] != 0 and len(ctx.trace) < ctx.shard[2]
+                    if ctx.aborted not in ("shard", "infeasible") and not shared_prefix and _GAP_COUNT.get(gkey, 0) <= 8:
+                        # (a path that ends before the sharding depth is seen by every shard: only the first
+                        # one looks for witnesses)
                         try:
                             ctx.aborted = None
                             ctx.abort_witnesses = ctx.alt_witnesses(None, 6 if not gaps else 2, tag="abort%d" % len(gaps))
@@ -1310,7 +1317,10 @@ def explore(fn, shard=None, max_paths=None, deadline=None, on_path=None,
                     if len(gap_witnesses) < 120 and w not in gap_witnesses:
                         gap_witnesses.append(w)
                 ctx.abort_witnesses = None
-                if len(gaps) > 12 or "diverged" in gap:
+                _GAP_COUNT[gkey] = _GAP_COUNT.get(gkey, 0) + 1
+                if len(gaps) > 6 or _GAP_COUNT[gkey] > 8 or "diverged" in gap:
+                    # (bounded per shard and per worker process: a change that makes every path unencodable
+                    # must not turn the run into an hour of witness searches)
                     raise
             finally:
                 trace = ctx.trace
